@@ -49,6 +49,8 @@ def first_diff(a, b, path=""):
             if d:
                 return d
         return None
+    if isinstance(a, float) and a != a and b != b:
+        return None                     # NaN is NaN
     return None if a == b else "%s: %r vs %r" % (path, a, b)
 
 
@@ -178,6 +180,55 @@ def one_case(ctx, name, d, mode, others):
     return t1
 
 
+def text_route(d, mode, header=""):
+    """the user's route: every object parsed from YAML TEXT (Einsum.from_str ...), so the YAML reader is part of the history"""
+    from teaal.parse import Einsum, Mapping, Architecture, Bindings, Format
+    from teaal.trans.hifiber import HiFiber
+    d = copy.deepcopy(d)
+    if not d.get("mapping"):
+        d["mapping"] = {}
+    if mode == "plain":
+        d = specs.strip(d, "spacetime")
+    text = header + specs.dump_yaml(d)
+    objs = [Einsum.from_str(text), Mapping.from_str(text)]
+    if mode == "metrics":
+        objs += [Architecture.from_str(text), Bindings.from_str(text), Format.from_str(text)]
+    return str(HiFiber(*objs))
+
+
+def text_histories(ctx, cases, rng, n):
+    """history independence on the text route: a specification compiled from its YAML text, then again after other documents were
+    read in the same interpreter - some of them carrying a `%YAML 1.1` / `%YAML 1.2` directive (legal YAML; a reader that is kept
+    between documents may carry the directive over to the next document)"""
+    done = 0
+    for name, d, mode in rng.sample(cases, min(len(cases), 3 * n)):
+        if done >= n:
+            break
+        try:
+            t1 = text_route(d, mode)
+        except Exception:
+            continue
+        done += 1
+        for od, om in [(c[1], c[2]) for c in rng.sample(cases, 2)]:
+            try:
+                text_route(od, om, header=rng.choice(["%YAML 1.1\n---\n", "%YAML 1.1\n---\n", "%YAML 1.2\n---\n", ""]))
+            except Exception:
+                pass
+        try:
+            t2 = text_route(d, mode)
+        except Exception as e:
+            t2 = "%s: %s" % (type(e).__name__, e)
+        ctx.ob(t1 == t2); ctx.stat("text_route_histories")
+        if t1 != t2:
+            ctx.violation(dict(kind="history-dependent", spec=name, yaml=d, mode=mode, first=t1, after_history=t2, route="text",
+                               reason="the text emitted for the specification (parsed from YAML text) depends on which documents were read before it in the same process"), True)
+        # a directive of its own must not change a document without YAML-1.1-only scalars either way; restore a neutral reader state
+        try:
+            text_route(d, mode, header="%YAML 1.2\n---\n")
+        except Exception:
+            pass
+
+
 def fresh_process_text(d, mode, hashseed):
     code = ("import sys, json; sys.path.insert(0, %r); import common, specs; d = json.load(sys.stdin); "
             "c = specs.compile_spec(d, %r); print(json.dumps(c.text if c.ok else None))" % (os.path.dirname(os.path.abspath(__file__)), mode))
@@ -218,6 +269,7 @@ def run(ctx):
             texts.append((name, d, mode, t))
             if len(ctx.samples) < 3 and mode == "metrics":
                 ctx.sample({"spec": name, "mode": mode, "einsum": d["einsum"]["expressions"]})
+    text_histories(ctx, cases, rng, 25 * k)
     # fresh interpreter, same hash seed
     hs = os.environ.get("PYTHONHASHSEED", "0")
     for name, d, mode, t in rng.sample(texts, min(len(texts), 6 * k)):
